@@ -54,15 +54,17 @@ func messageItem(i int, data []byte) (rtspc.Item, error) {
 }
 
 func (k *scanner) scan() {
-	msgs, err := k.p.snapshot()
 	k.mu.Lock()
 	defer k.mu.Unlock()
 	if k.obs.Err != nil {
 		return
 	}
-	for ; k.pos < len(msgs); k.pos++ {
-		it, e := messageItem(k.pos, msgs[k.pos].data)
+	msgs, err := k.p.since(k.pos)
+	for _, m := range msgs {
+		it, e := messageItem(k.pos, m.data)
+		k.pos++
 		if e != nil {
+			k.pos--
 			k.obs.Err = e
 			return
 		}
@@ -168,40 +170,53 @@ func (x *wsSess) allAnswered() bool {
 	return len(x.sc.obs.Resps) >= n
 }
 
+func (x *wsSess) responses() int {
+	x.sc.scan()
+	x.sc.mu.Lock()
+	defer x.sc.mu.Unlock()
+	return len(x.sc.obs.Resps)
+}
+
 func (x *wsSess) finish() *observed { return x.sc.result() }
-func (x *wsSess) close()            { x.p.ws.Close() }
-func (x *wsSess) addr() string      { return x.p.ws.LocalAddr().String() }
+func (x *wsSess) close()            { x.p.close() }
+func (x *wsSess) addr() string      { return x.p.localAddr() }
 
 // openWS dials and runs the play dialogue over ws-rtsp.
 func openWS(t evid.TB, s *srv.Server, pl *plan, path string, exp *expectation, sentinel func() []byte) *wsSess {
-	p, err := dialWS(s.WS(path), "rtsp")
+	var p *wsConn
+	var err error
+	if pl.Transport == "tcp" { // backlog stress over RTSP/TCP: same session code over the raw connection
+		p, err = dialTCP(s.Addr(), pl.rcvBuf())
+	} else {
+		p, err = dialWS(s.WS(path), "rtsp", pl.rcvBuf())
+	}
 	if err != nil {
-		t.Fatalf("machinery: ws dial: %v", err)
+		t.Fatalf("machinery: %s dial: %v", pl.Transport, err)
 	}
 	x := &wsSess{p: p, url: s.RTSP(path), exp: exp}
 	x.sc = newScanner(p, 0, sentinel)
 	do := func(method, url, extra string) *rtspc.Response {
 		id, err := x.request(method, url, extra, "")
 		if err == nil {
-			waitFor(bound("ws"), func() bool { return x.answered(id) || x.broken() })
+			waitFor(bound(pl.Transport), func() bool { return x.answered(id) || x.broken() })
 		}
 		if o := x.sc.result(); o.Err != nil {
 			// the play dialogue itself is server output under the same grammar
 			if _, ok := o.Err.(*rtspc.FramingError); ok {
-				p.ws.Close()
-				sawViolation.Store("ws", true)
-				evid.Violation(t, "ws-grammar", map[string]any{"plan": pl, "during": method + " of the play dialogue"}, "ws (grammar): answering %s of the play dialogue: %v", method, o.Err)
+				p.close()
+				sawViolation.Store(pl.Transport, true)
+				evid.Violation(t, pl.Transport+"-grammar", map[string]any{"plan": pl, "during": method + " of the play dialogue"}, "%s (grammar): answering %s of the play dialogue: %v", pl.Transport, method, o.Err)
 			}
 		}
 		if err != nil || !x.answered(id) {
-			p.ws.Close()
-			t.Fatalf("machinery: ws %s before the case: %v %v", method, err, x.sc.result().Err)
+			p.close()
+			t.Fatalf("machinery: %s %s before the case: %v %v", pl.Transport, method, err, x.sc.result().Err)
 		}
 		o := x.sc.result()
 		r := o.Resps[len(o.Resps)-1]
 		if r.Status != 200 || r.CSeq() != id {
-			p.ws.Close()
-			t.Fatalf("machinery: ws %s before the case answered %d (CSeq %s, want %s)", method, r.Status, r.CSeq(), id)
+			p.close()
+			t.Fatalf("machinery: %s %s before the case answered %d (CSeq %s, want %s)", pl.Transport, method, r.Status, r.CSeq(), id)
 		}
 		if v := r.SessionID(); v != "" {
 			x.sid = v
@@ -212,7 +227,7 @@ func openWS(t evid.TB, s *srv.Server, pl *plan, path string, exp *expectation, s
 	d := do("DESCRIBE", x.url, "Accept: application/sdp\r\n")
 	ctl := rtspc.Controls(string(d.Body))
 	if len(ctl) != 2 {
-		p.ws.Close()
+		p.close()
 		t.Fatalf("machinery: described SDP has %d media sections", len(ctl))
 	}
 	do("SETUP", rtspc.TrackURL(x.url, ctl[0].Control), fmt.Sprintf("Transport: RTP/AVP/TCP;unicast;interleaved=%d-%d\r\n", pl.Video[0], pl.Video[1]))
@@ -221,7 +236,7 @@ func openWS(t evid.TB, s *srv.Server, pl *plan, path string, exp *expectation, s
 	}
 	do("PLAY", x.url, "Range: npt=0.000-\r\n")
 	if !srv.WaitFor(ioBound, func() bool { return srv.Consumers(path) == 1 }) {
-		p.ws.Close()
+		p.close()
 		t.Fatalf("machinery: the ws session did not attach to %s", path)
 	}
 	return x
